@@ -105,7 +105,7 @@ Proof.
     split; [intros m E; injection E as <-; exact Hb|]. intros _. rewrite Hb. lia.
   - intros lo s _ _ v Hv. destruct v; try discriminate. apply (fb_head (SArrOf lo s) 4); [reflexivity|lia].
   - intros s _ _ v Hv. destruct v; try discriminate. apply (fb_head (SSetOf s) 6); [reflexivity|lia].
-  - intros lo sorted k _ v' _ _ v Hv. destruct v; try discriminate. apply (fb_head (SMapOf lo sorted k v') 5); [reflexivity|lia].
+  - intros lo ord k _ v' _ _ v Hv. destruct v; try discriminate. apply (fb_head (SMapOf lo ord k v') 5); [reflexivity|lia].
   - (* SNullable *) intros s IH Hs v Hv. cbn [wfs] in Hs. apply andb_prop in Hs as [Hs _].
     destruct v; cbn [enc wfv] in Hv |- *;
       try (destruct (IH Hs _ Hv) as (b' & t' & E & _); exists b', t'; split; [exact E|]; split; [discriminate|discriminate]).
@@ -126,6 +126,8 @@ Proof.
     destruct (N.of_nat (length b) <=? 64).
     + apply (fb_head SBBytes 2); [reflexivity|lia].
     + eexists _, _. split; [reflexivity|]. split; [intros m E; injection E as <-; reflexivity|intros _; discriminate].
+  - (* SNamed *) intros id s IH Hs v Hv. cbn [enc wfs wfv] in *. destruct (IH Hs v Hv) as (b & t & E & H1 & H2).
+    exists b, t. split; [exact E|]. split; [exact H1|exact H2].
   - (* ANil *) intros i l H. discriminate.
   - (* ACons *) intros idx fs _ r IH i l H. cbn [wfv_vl enc_vl] in *. destruct i as [|i'].
     + destruct (encode_head_major 4 (1 + slen fs)) as (b & t & -> & Hb). eexists _, _. split; [reflexivity|exact Hb].
@@ -244,19 +246,30 @@ Proof.
   destruct l as [|o t]; [lia|]. specialize (IH t). destruct (present p o); lia.
 Qed.
 
-Lemma next_key fs : forall lo l, keys_above (Some lo) fs = true -> wfv_kl fs l = true -> count_kl fs l <> 0 ->
-  exists k' tail, lo < k' /\ k' < two64 /\ enc_kl fs l = enc_uint k' ++ tail.
+Fixpoint key_in (k : N) (fs : klist) : bool :=
+  match fs with KNil => false | KCons j _ _ r => (k =? j) || key_in k r end.
+
+Lemma key_fresh_in k j fs : key_fresh k fs = true -> key_in j fs = true -> (j =? k) = false.
 Proof.
-  induction fs as [|k p s r IH]; intros lo l Hk Hv Hc; [cbn in Hc; congruence|].
+  induction fs as [|i p s r IH]; cbn [key_fresh key_in]; [discriminate|].
+  intros Hf Hi. apply andb_prop in Hf as [Hk Hf]. apply negb_true_iff in Hk.
+  apply orb_prop in Hi as [Hi|Hi]; [|exact (IH Hf Hi)].
+  destruct (j =? k) eqn:E; [|reflexivity]. lia.
+Qed.
+
+Lemma next_key fs : forall l, keys_nodup fs = true -> wfv_kl fs l = true -> count_kl fs l <> 0 ->
+  exists k' tail, key_in k' fs = true /\ k' < two64 /\ enc_kl fs l = enc_uint k' ++ tail.
+Proof.
+  induction fs as [|k p s r IH]; intros l Hk Hv Hc; [cbn in Hc; congruence|].
   destruct l as [|o t]; [cbn in Hv; discriminate|].
-  cbn [keys_above wfv_kl count_kl enc_kl] in *.
-  apply andb_prop in Hk as [Hk Hr]. apply andb_prop in Hk as [Hlo Hk64].
+  cbn [keys_nodup wfv_kl count_kl enc_kl key_in] in *.
+  apply andb_prop in Hk as [Hk Hr]. apply andb_prop in Hk as [Hfr Hk64].
   apply andb_prop in Hv as [Ho Ht].
   rewrite (present_wf p s o Ho) in *.
   destruct o as [v|].
-  - exists k, (enc s v ++ enc_kl r t). repeat split; try lia. rewrite <- app_assoc. reflexivity.
-  - destruct (IH k t Hr Ht ltac:(lia)) as (k' & tail & Hnk1 & Hnk2 & Hnk3).
-    exists k', tail. repeat split; try lia. cbn [app]. exact Hnk3.
+  - exists k, (enc s v ++ enc_kl r t). rewrite N.eqb_refl. repeat split; try lia. rewrite <- app_assoc. reflexivity.
+  - destruct (IH t Hr Ht ltac:(lia)) as (k' & tail & Hnk1 & Hnk2 & Hnk3).
+    exists k', tail. rewrite Hnk1, orb_true_r. repeat split; try lia. cbn [app]. exact Hnk3.
 Qed.
 
 (* ---------- the round-trip theorem ---------- *)
@@ -265,7 +278,7 @@ Definition RT (s : schema) : Prop :=
 Definition RTs (fs : slist) : Prop :=
   wfs_sl fs = true -> forall l rest, wfv_sl fs l = true -> dec_sl fs (enc_sl fs l ++ rest) = Ok (l, rest).
 Definition RTk (fs : klist) : Prop :=
-  wfs_kl fs = true -> forall lo, keys_above lo fs = true -> forall l rest, wfv_kl fs l = true ->
+  wfs_kl fs = true -> keys_nodup fs = true -> forall l rest, wfv_kl fs l = true ->
   dec_kl fs (count_kl fs l) (enc_kl fs l ++ rest) = Ok (l, 0, rest).
 Definition RTv (alts : vlist) : Prop :=
   wfs_vl alts = true -> forall i l, wfv_vl alts i l = true ->
@@ -308,7 +321,7 @@ Proof.
   - (* SMap *) intros fs IH Hs v rest Hv. destruct v; try discriminate. cbn [enc dec wfv wfs] in *.
     split_and Hs. pose proof (count_kl_le fs l).
     rewrite <- app_assoc. rewrite dec_head_m_enc by lia. cbn [bind].
-    rewrite IH with (lo := None) by assumption. cbn [bind]. reflexivity.
+    rewrite IH by assumption. cbn [bind]. reflexivity.
   - (* SVar *) intros alts IH Hs v rest Hv. destruct v; try discriminate. cbn [enc dec wfv wfs] in *.
     destruct (IH Hs i l Hv) as (idx & n & body & E & Hn & Hi & _ & D). rewrite E.
     rewrite <- !app_assoc. rewrite dec_head_m_enc by assumption. cbn [bind].
@@ -325,7 +338,7 @@ Proof.
     rewrite dec_counted_roundtrip; [reflexivity| |].
     + intros x r Hx. apply IH; [assumption|]. eapply forallb_In; eassumption.
     + intros x Hx. apply enc_nonempty; [assumption|]. eapply forallb_In; eassumption.
-  - (* SMapOf *) intros lo sorted k IHk v' IHv Hs v rest Hv. destruct v; try discriminate. cbn [enc dec wfv wfs] in *.
+  - (* SMapOf *) intros lo ord k IHk v' IHv Hs v rest Hv. destruct v; try discriminate. cbn [enc dec wfv wfs] in *.
     split_and Hs. split_and Hv. rewrite <- app_assoc. rewrite dec_head_m_enc by lia. cbn [bind]. rw_hyps.
     match goal with H : forallb _ l = true |- _ => rename H into Hall end.
     rewrite dec_counted_roundtrip; [reflexivity| |].
@@ -381,12 +394,13 @@ Proof.
       * intros c Hc. unfold enc_chunk. destruct (encode_head_major 2 (N.of_nat (length c))) as (b0 & t0 & -> & Hb0).
         exists b0, (t0 ++ c). split; [reflexivity|]. intros ->. discriminate.
       * rewrite app_length. cbn [length]. lia.
+  - (* SNamed *) intros id s IH Hs v rest Hv. cbn [enc dec wfs wfv] in *. apply IH; assumption.
   - (* SNil *) intros _ l rest Hv. destruct l; [reflexivity|discriminate].
   - (* SCons *) intros s IHs r IHr Hw l rest Hv. cbn [wfs_sl] in Hw. split_and Hw.
     destruct l as [|v t]; [discriminate|]. cbn [wfv_sl enc_sl dec_sl] in *. split_and Hv.
     rewrite <- app_assoc. rewrite IHs by assumption. cbn [bind]. rewrite IHr by assumption. reflexivity.
-  - (* KNil *) intros _ lo _ l rest Hv. destruct l; [reflexivity|discriminate].
-  - (* KCons *) intros k p s IHs r IHr Hw lo Hk l rest Hv. cbn [wfs_kl keys_above] in *. split_and Hw. split_and Hk.
+  - (* KNil *) intros _ _ l rest Hv. destruct l; [reflexivity|discriminate].
+  - (* KCons *) intros k p s IHs r IHr Hw Hk l rest Hv. cbn [wfs_kl keys_nodup] in *. split_and Hw. split_and Hk.
     destruct l as [|o t]; [discriminate|]. cbn [wfv_kl count_kl enc_kl dec_kl] in *. split_and Hv.
     match goal with H : match o with Some _ => _ | None => _ end = true |- _ => rename H into Ho end.
     rewrite (present_wf p s o Ho).
@@ -398,18 +412,18 @@ Proof.
       assert (Hemp : (match p with OptNE => is_empty_val v | _ => false end) = false).
       { destruct p; try reflexivity. apply negb_true_iff. assumption. }
       rewrite Hemp. replace (1 + count_kl r t - 1) with (count_kl r t) by lia.
-      rewrite IHr with (lo := Some k) by assumption. reflexivity.
+      rewrite IHr by assumption. reflexivity.
     + cbn [app]. rewrite N.add_0_l.
       assert (Hhere : (if count_kl r t =? 0 then None
                        else match dec_head_m 0 (enc_kl r t ++ rest) with
                             | Ok (k', b1) => if k' =? k then Some b1 else None
                             | _ => None end) = None).
       { destruct (count_kl r t =? 0) eqn:E0; [reflexivity|].
-        destruct (next_key r k t ltac:(assumption) ltac:(assumption) ltac:(lia)) as (k' & tail & Hnk1 & Hnk2 & Hnk3).
+        destruct (next_key r t ltac:(assumption) ltac:(assumption) ltac:(lia)) as (k' & tail & Hnk1 & Hnk2 & Hnk3).
         rewrite Hnk3. rewrite <- app_assoc. unfold enc_uint. rewrite dec_head_m_enc by assumption.
-        destruct (k' =? k) eqn:E; [lia|reflexivity]. }
+        rewrite (key_fresh_in k k' r) by assumption. reflexivity. }
       rewrite Hhere. destruct p; [discriminate| |];
-        rewrite IHr with (lo := Some k) by assumption; reflexivity.
+        rewrite IHr by assumption; reflexivity.
   - (* ANil *) intros _ i l H. discriminate.
   - (* ACons *) intros idx fs IHfs r IHr Hw i l Hv. cbn [wfs_vl] in Hw. split_and Hw.
     cbn [wfv_vl enc_vl] in *. destruct i as [|i'].
